@@ -1,5 +1,6 @@
 """C13: format conversions and reader entry points agree."""
 from lib import *
+from lib import _fmt
 import json as _json
 import os
 
@@ -23,8 +24,12 @@ RULE = ("lists of 1..5 random well-formed trees (2..12 tips, rooted / unrooted /
         "byte B-2..B+1 of a line longer than bufio's buffer, B = 4096, 8192, 65536 thorough; three trees per file, also as second "
         "line); numbers: dyadic, or (16% of the lists) full-precision binary64 values -- random 52-bit mantissas over 40 binades, "
         "one ulp beside short decimals, results of float arithmetic (0.1*3, 1/3, 0.1+0.2) -- on every chain, "
-        "compared exactly; every list is "
-        "the command line (extra): `gotree reformat newick|nexus|nexus --translate|phyloxml -i IN [-o OUT]` on 6 lists (60 thorough) with "
+        "compared exactly; 30% of the lists are PhyloXML-born / named through the API: inner nodes with name AND support (AND length), "
+        "name only, support only, neither, named roots; every list is also rendered here (not by the writer under test) as a "
+        "PhyloXML document (<name>/<branch_length>/<confidence> in any order, indented or not, tips through <taxonomy>) and goes "
+        "document -> tree, document -> WritePhyloXML -> tree (oracle: name, length and support of every clade), document -> "
+        "Newick / Nexus -> tree (oracle: the tree without the supports that Newick cannot print beside a name; the rest by "
+        "correspondence), single-tree accessor on the document; the command line (extra): `gotree reformat newick|nexus|nexus --translate|phyloxml -i IN [-o OUT]` on 6 lists (60 thorough) with "
         "OUT fresh / an existing longer file / an existing shorter file / stdout (byte-identical), input from file and stdin, output "
         "read back with `reformat newick -f <fmt>` against the input; every list is "
         "also written from the trees as BUILT through the API (parent slots at random positions, as after a reroot) to PhyloXML "
@@ -124,6 +129,85 @@ def _make_tree(rng, names):
         for e, c in kids(x):
             e["pv"] = None
     return t
+
+PX_NAMES = ["Primates", "Homo", "clade-A", "node.1", "Eukaryota", "grp_β", "n#1", "x/y", "a|b", "inner"]
+
+def px_born(rng, t, numbers="dyadic"):
+    """what a PhyloXML file of another tool (or a tree whose inner nodes were named through the API after reading) has and a
+    Newick-born tree never has: inner clades with name AND confidence (and branch length), beside name only, confidence
+    only, neither"""
+    g = Gen(rng)
+    k = 0
+    for x in preorder(t):
+        for e, c in kids(x):
+            if not kids(c):
+                continue
+            k += 1
+            r = rng.random()
+            def sup():
+                return full_double(rng, unit=True) if numbers == "full" and rng.random() < 0.5 else \
+                    rng.choice([g.dyadic(64, 64), Fraction(rng.randint(0, 100)), Fraction(1), Fraction(0)])
+            name = "%s_%d" % (rng.choice(PX_NAMES), k)
+            if r < 0.45:
+                c["name"], e["sup"] = name, sup()
+                if rng.random() < 0.7 and e["len"] is None:
+                    e["len"] = g.dyadic(256, 64)
+            elif r < 0.6:
+                c["name"], e["sup"] = name, None
+            elif r < 0.8:
+                c["name"], e["sup"] = "", sup()
+            elif r < 0.9:
+                c["name"], e["sup"] = "", None
+            # else: as generated
+    if rng.random() < 0.2:
+        t["name"] = "root_" + rng.choice(PX_NAMES)
+    return t
+
+def _xml_text(x):
+    return x.replace("&", "&amp;").replace("<", "&lt;").replace(">", "&gt;")
+
+def px_doc(rng, trees):
+    """the trees as a PhyloXML document, rendered here (not by the writer under test): every clade has its <name>,
+    <branch_length> and <confidence> when the node / branch has them, in a random order, sub-clades in order; indented or on
+    one line; 8% of the tips are named through <taxonomy><scientific_name> or <code>"""
+    pretty = rng.random() < 0.5
+    nl = "\n" if pretty else ""
+    def clade(x, e, depth):
+        ind = ("  " * depth) if pretty else ""
+        items = []
+        ks = kids(x)
+        if x["name"] != "":
+            r = rng.random()
+            if ks or r >= 0.08:
+                items.append("<name>%s</name>" % _xml_text(x["name"]))
+            elif r < 0.04:
+                items.append("<taxonomy><scientific_name>%s</scientific_name></taxonomy>" % _xml_text(x["name"]))
+            else:
+                items.append("<taxonomy><id provider=\"x\">7</id><code>%s</code></taxonomy>" % _xml_text(x["name"]))
+        if e is not None:
+            if e["len"] is not None:
+                items.append("<branch_length>%s</branch_length>" % _fmt(e["len"]))
+            if e["sup"] is not None:
+                items.append("<confidence%s>%s</confidence>" % (rng.choice(["", " type=\"bootstrap\""]), _fmt(e["sup"])))
+        if rng.random() < 0.3:
+            rng.shuffle(items)
+        subs = [clade(c, ce, depth + 1) for ce, c in ks]
+        if subs and rng.random() < 0.1:
+            body = subs + items          # sub-clades before the clade's own fields
+        else:
+            body = items + subs
+        return ind + "<clade>" + nl + "".join((ind + "  " if pretty and not b.lstrip().startswith("<clade>") else "") + b + nl for b in body) + ind + "</clade>"
+    out = ['<?xml version="1.0" encoding="UTF-8"?>' + nl,
+           rng.choice(['<phyloxml>', '<phyloxml xmlns:xsi="http://www.w3.org/2001/XMLSchema-instance" xmlns="http://www.phyloxml.org">']) + nl]
+    for t in trees:
+        rooted = len(kids(t)) == 2
+        out.append('<phylogeny rooted="%s">' % ("true" if rooted else "false") + nl)
+        if rng.random() < 0.2:
+            out.append("<name>a phylogeny</name>" + nl)
+        out.append(clade(t, None, 1) + nl)
+        out.append("</phylogeny>" + nl)
+    out.append("</phyloxml>" + nl)
+    return "".join(out)
 
 def ns_json(t):
     def node(x, div):
@@ -252,13 +336,18 @@ def gen(rng, tier):
             if differ and i > 0:
                 nm = rng.sample(names, max(2, len(names) - rng.choice([1, 2]))) if rng.random() < 0.6 and len(names) > 2 else names + ["extra%d" % i]
             trees.append(make_tree(rng, nm, numbers))
+        born = "newick"
+        if rng.random() < 0.3:
+            born = "phyloxml"
+            for t in trees:
+                px_born(rng, t, numbers)
         layout = rng.choice(LAYOUTS) if k > 1 else rng.choice(["lines", "nofinal", "trail", "breaks", "crlf"])
         if layout == "sameline" and k < 2:
             layout = "lines"
         o = {"trees": [T(t) for t in trees], "translate": rng.random() < 0.5, "seps": seps_for(rng, layout, k),
-             "breaks": layout == "breaks", "nsjson": ns_json(trees[0])}
+             "breaks": layout == "breaks", "nsjson": ns_json(trees[0]), "pxdoc": px_doc(rng, trees)}
         out.append({"sx": sx(o), "meta": {"ntrees": k, "layout": layout, "translate": o["translate"], "taxa": "differ" if differ else "same",
-                                          "labels": "with-keywords" if illegal else "legal", "numbers": numbers}})
+                                          "labels": "with-keywords" if illegal else "legal", "numbers": numbers, "born": born}})
     # the big files are spread over the chunks of 200 cases (one worker and judge process per chunk)
     bigs = bigs + boundary_cases(tier)
     step = max(1, len(out) // max(1, len(bigs)))
